@@ -124,7 +124,7 @@ def NS_AIRY(tier):
 
 
 def BOUNDS(tier):
-    return {"group": {"N": NS_OP, "wavelengths": WVLS, "spacings": D1S, "z0": Z0S, "step_alphabet_z0": STEPS,
+    return {"group": {"N": NS_OP + [5, 7], "wavelengths": WVLS, "spacings": D1S, "z0": Z0S, "step_alphabet_z0": STEPS,
                       "depth": DEPTH(tier), "non_lattice_splits(total_z0, fraction)": SPLITS},
             "magnified_round_trip": {"N": NS_OP, "magnifications": MAGS_RT, "z": ZS_OP[:4]},
             "operator_identities": {"N": NS_OP, "z": ZS_OP, "magnifications": MAGS_OP},
@@ -135,7 +135,8 @@ def BOUNDS(tier):
 
 
 def cases(tier):
-    for N, wvl, d, z0 in itertools.product(NS_OP, WVLS, D1S, Z0S):
+    # the group clauses do not depend on a grid convention, so odd grids are explored too
+    for N, wvl, d, z0 in itertools.product(NS_OP + [5, 7], WVLS, D1S, Z0S):
         yield Case("group:N=%d:lam=%g:d=%g:z0=%g" % (N, wvl, d, z0),
                    {"kind": "group", "N": N, "wvl": wvl, "d": d, "z0": z0, "depth": DEPTH(tier)})
     for N, wvl, d in itertools.product(NS_OP, WVLS, D1S):
